@@ -44,13 +44,18 @@ pub struct LogIndexHeaderDo {
 
 impl LogIndexHeaderDo {
     pub fn new() -> Self {
+        #[cfg(not(nacos_group_r_nacos_verif))]
+        let (index_interval, data_area_index) = (128, 4096);
+        // verification hook: a smaller index step / index area makes index entries and rollover cheap to reach
+        #[cfg(nacos_group_r_nacos_verif)]
+        let (index_interval, data_area_index) = crate::verif_hooks::log_geometry();
         Self {
             magic: 0x42313644,
             version: 0,
             last_term: 0,
             first_index: 0,
-            data_area_index: 4096,
-            index_interval: 128,
+            data_area_index,
+            index_interval,
             all_index_count: 0,
             status: 0,
             ext1: 0,
